@@ -212,8 +212,12 @@ func curvedShapes() []shape {
 		{mv, 0, 0, mv, cb, 2, 2, 4, 0, 4, 0, cb},                                          // cubic whose last control point is its end point
 		{mv, 0, 0, mv, cb, 2, 2, 4, 0, 4, 0, cb, ln, 6, -2, ln},                           // the same followed by a line
 		{mv, 0, 0, mv, cb, 0, 0, 4, 2, 4, 2, cb},                                          // both control points on the end points (a straight line written as a cubic)
-		{mv, 0, 0, mv, ar, 6, 3, 40 * math.Pi / 180, 0, 9.6, 3.6, ar},                     // long span of a 2:1 ellipse, rotated (the offset of an ellipse is not an ellipse)
-		{mv, 0, 0, mv, ar, 6, 2, 0, 0, 12, 0, ar},                                         // half of a 3:1 ellipse
+		{mv, 0, 0, mv, ar, 2, 2, 0, 0, 2, 2, ar, ar, 2, 2, 0, 2, 4, 4, ar},                // clockwise quarter circle, then a counter-clockwise one
+		{mv, 2, 0, mv, ar, 2, 2, 0, 0, 0, -2, ar, ar, 2, 2, 0, 0, -2, 0, ar, ar, 2, 2, 0, 0, 0, 2, ar, ar, 2, 2, 0, 0, 2, 0, ar, cl, 2, 0, cl}, // clockwise circle of four quarters
+		{mv, 0, 0, mv, ln, 0, 4, ln, ar, 2, 2, 0, 0, 2, 6, ar, ln, 6, 6, ln, ar, 2, 2, 0, 0, 8, 4, ar, ln, 8, 0, ln},                           // two clockwise rounded corners
+		{mv, 0, 0, mv, ar, 2, 2, 0, 2, 2, 2, ar, ar, 3, 3, 0, 0, 5, 5, ar, ar, 1, 1, 0, 2, 6, 6, ar},                                           // quarters of radius 2 (ccw), 3 (cw), 1 (ccw)
+		{mv, 0, 0, mv, ar, 6, 3, 40 * math.Pi / 180, 0, 9.6, 3.6, ar},                                                                          // long span of a 2:1 ellipse, rotated (the offset of an ellipse is not an ellipse)
+		{mv, 0, 0, mv, ar, 6, 2, 0, 0, 12, 0, ar},                                                                                              // half of a 3:1 ellipse
 	}
 	var out []shape
 	for _, d := range raw {
